@@ -207,13 +207,26 @@ def execute(scen):
                     and not spec["meta"].get("self"):
                 base = getattr(h.w.mod, b["args"][0][1])
                 rest = [h.w.value(v) for v in b["args"][1:]]
+                ref_b = ref_outcomes(spec, regs, [b], scen["label"])[0]
                 for q in range(c["flood"]):
                     try:
                         h.ov.dispatch(type(f"Flood{i}_{q}", (base,), {})(0, []), *rest)
                     except Exception:  # noqa: BLE001
                         pass
+                    h.w.log.take()
+                    # the call the flood was derived from, repeated after every new type: whatever
+                    # the size of a bounded table, the moment it evicts falls between two of these
+                    out_b = h.w.call("f", b)
+                    if out_b != ref_b:
+                        violation = {"clause": "a call's outcome in a history differs from the same call made first on a fresh function",
+                                     "op_index": i, "call": b, "observed": out_b, "expected": ref_b,
+                                     "after_fault": bool(f is not None and i > f["at"] and fired),
+                                     "flood_size": q + 1, "symptom": symptom(out_b, ref_b) + ":flood"}
+                        break
                 h.w.log.take()
             trace.append(["flood"])
+            if violation:
+                break
             continue
         target = "g" if (second and c.get("on") == "g") else "f"
         tregs = second["regs"] if target == "g" else regs
